@@ -87,17 +87,7 @@ func classes(st sqlgen.Stmt) (bool, string, []string) {
 
 func TestTreeIsPrescribed(t *testing.T) {
 	hx.Rule("tree_is_prescribed", "G-SQL statements (model tree drawn first, text rendered with required and random redundant parentheses and random keyword case); gosqlx.Parse must accept and the tree must dump equal to the model tree; non-trivial = needs a precedence parenthesis, or has a nested query, or mixes arithmetic with AND/OR, or uses >= 6 grammar features; distinct = statement kind + feature set + shape hash")
-	gen := func(rt *rapid.T) TreeCase {
-		g := sqlgen.New(rt, features())
-		st := sqlgen.Statement(g)
-		sql := sqlgen.SQL(st.Toks)
-		nt, key, cl := classes(st)
-		if !hx.Surveying() {
-			hx.Case("tree_is_prescribed", nt, key+fmt.Sprint(len(st.Toks)), append(cl, "kind_"+st.Kind)...)
-			hx.Sample("tree_is_prescribed", sql)
-		}
-		return TreeCase{SQL: sql, Want: astdump.Dump(st.Node)}
-	}
+	gen := genTreeIsPrescribed
 	if hx.Surveying() {
 		treeCheck.Survey(t, 40000, gen, func(c TreeCase) int { return len(c.SQL) }, func(err error) string {
 			s := err.Error()
@@ -110,3 +100,19 @@ func TestTreeIsPrescribed(t *testing.T) {
 	}
 	treeCheck.Rapid(t, hx.N(120000, 1200000), gen)
 }
+
+// genTreeIsPrescribed is the case generator of treeCheck (shared by the rapid run and the native fuzz target).
+func genTreeIsPrescribed(rt *rapid.T) TreeCase {
+	g := sqlgen.New(rt, features())
+	st := sqlgen.Statement(g)
+	sql := sqlgen.SQL(st.Toks)
+	nt, key, cl := classes(st)
+	if !hx.Surveying() {
+		hx.Case("tree_is_prescribed", nt, key+fmt.Sprint(len(st.Toks)), append(cl, "kind_"+st.Kind)...)
+		hx.Sample("tree_is_prescribed", sql)
+	}
+	return TreeCase{SQL: sql, Want: astdump.Dump(st.Node)}
+}
+
+// FuzzTreeIsPrescribed: coverage-guided search over the same generator (thorough tier).
+func FuzzTreeIsPrescribed(f *testing.F) { treeCheck.Fuzz(f, genTreeIsPrescribed) }
